@@ -1,6 +1,7 @@
 """C02: the in-memory registry follows the reference semantics (OciRegistry.tla)."""
 import os
 
+import ocitest_stage
 import regcommon as rc
 import vlib
 
@@ -55,6 +56,12 @@ def run(ctx):
     ctx.cov['samples'] = [dict(tlc_generated_scenario=scen[0]['ops'][:8]), dict(recorded_events=rc.sample_events(traces[-1], 5))]
     # 3. TLC validates every recorded execution against the reference model
     vlib.judge_traces(ctx, 'RegTrace', 'RegTrace.cfg', traces, strict=STRICT, label='ocimem vs OciRegistry')
+    if not quick:
+        # the content pusher of package ocitest (its completion loop and push order are a TLA+ module of their own,
+        # OciTestContent): every call it makes on ocimem is validated as a step of OciRegistry, and the final state
+        # against the content it was given.  Contents naming a blob id that does not exist are left out: the pusher
+        # panics on them (DESIGN 9.6), which no listed property speaks about.
+        ocitest_stage.stage(ctx, quick, badblobs=False)
     ctx.assumptions += ['digest<->content mapping and JSON rendering of manifests by the harness (Go crypto/sha256, encoding/json)',
                         'TLC and the Json/IOUtils community modules']
     return vlib.finish(ctx, rule='every call of every history (TLC random walks over the 2-repository/8-content universe; seeded-random '
@@ -63,4 +70,6 @@ def run(ctx):
 
 
 def replay(ctx, path):
+    if ocitest_stage.is_replay_of_stage(path):
+        return ocitest_stage.replay(ctx, path)
     return rc.replay_reg(ctx, path, strict=STRICT)
